@@ -86,6 +86,29 @@ func caseC17(c *Ctx) {
 		return
 	}
 
+	// every third case: the dump is kept while the dumped world goes on (it must stay a snapshot); the reference
+	// for all later comparisons is then a world rebuilt to the state at dump time
+	if c.Case%3 == 1 {
+		dumpIdx := len(a.Log)
+		more := 10 + c.R.Intn(40)
+		for i := 0; i < more && !a.Failed(); i++ {
+			a.Do(g.Next())
+		}
+		if a.Failed() {
+			finish(c, a, false)
+			return
+		}
+		ref := Replay(a.Cfg0, Opts{Ledger: true, Model: true, Inv: true, NoTrans: true}, a.Log[:dumpIdx])
+		if ref.Failed() {
+			a.fail("load.ref.failed", "rebuilding the dump-time state failed: %s", ref.Viol[0].Msg)
+			finish(c, a, false)
+			return
+		}
+		ref.Cov = a.Cov
+		a = ref
+		a.Cov.N["dump_kept_while_source_continued"]++
+	}
+
 	// receiving world: fresh or reset, any capacity increment
 	cfgB := cfg
 	cfgB.CapInc = Pick(c.R, []int{1, 2, 3, 8, 128})
@@ -187,4 +210,56 @@ func caseC17(c *Ctx) {
 		}
 	}
 	finish(c, a, nontrivial)
+}
+
+// keptDump is an entity dump taken earlier in a history, with the model state at that time.
+type keptDump struct {
+	d                ecs.EntityDump
+	alive            []ecs.Entity
+	ledger           map[ecs.Entity]bool
+	created, removed int
+	step             int
+}
+
+func init() {
+	// DumpKeep takes a dump and keeps it while the world goes on; ResetLoad resets the world and loads it.
+	extraCalls["DumpKeep"] = func(s *Sess, op *Op, out *Outcome) {
+		k := &keptDump{d: s.W.DumpEntities(), alive: s.M.AliveSorted(), ledger: map[ecs.Entity]bool{}, created: s.M.Created, removed: s.M.Removed, step: s.step}
+		for h := range s.M.Ledger {
+			k.ledger[h] = true
+		}
+		s.kept = k
+	}
+	extraApply["DumpKeep"] = func(s *Sess, op *Op, out *Outcome) []ExpEvent { return nil }
+	extraCalls["ResetLoad"] = func(s *Sess, op *Op, out *Outcome) {
+		s.W.Reset()
+		s.W.LoadEntities(&s.kept.d)
+	}
+	extraApply["ResetLoad"] = func(s *Sess, op *Op, out *Outcome) []ExpEvent {
+		k := s.kept
+		s.kept = nil
+		s.M.Reset()
+		s.Res.Reset()
+		for _, e := range k.alive {
+			s.M.Alive[e] = &MEnt{Comps: map[int][]byte{}}
+		}
+		for h := range k.ledger {
+			s.M.Ledger[h] = true
+		}
+		s.M.Created, s.M.Removed = k.created, k.removed
+		s.Cov.N["dump_kept_then_loaded"]++
+		return nil
+	}
+	extraGen["DumpKeep"] = func(g *Gen) *Op {
+		if g.S.kept != nil || g.S.open > 0 {
+			return nil
+		}
+		return &Op{K: "DumpKeep"}
+	}
+	extraGen["ResetLoad"] = func(g *Gen) *Op {
+		if g.S.kept == nil || g.S.step-g.S.kept.step < 8 {
+			return nil
+		}
+		return &Op{K: "ResetLoad"}
+	}
 }
